@@ -443,6 +443,14 @@ theorem refAccepts_none (t : T) (e : Emu) (cols : Nat)
   | true => simp [Model.C12Ref.refAccepts, h1, h2, ← h3, hp, h4, h5, h6, h7]
   | false => simp [Model.C12Ref.refAccepts, h1, h2, ← h3, hp, h3' hp, h4, h5, h6, h7]
 
+/-- The driver's comparison can fail (it is not vacuous): a blank 1×1 reference terminal does not accept
+    an emulator showing `a`; it accepts the blank one; and a hidden / visible cursor mismatch is seen. -/
+example :
+    Model.C12Ref.refAccepts (T.init 1 1) { Lemmas.EmuRefine.newState 1 1 with primary := [[{ g := [97], w := 1 }]] } 1 = some "grid" ∧
+    Model.C12Ref.refAccepts (T.init 1 1) (Lemmas.EmuRefine.newState 1 1) 1 = none ∧
+    Model.C12Ref.refAccepts { T.init 1 1 with cursorVisible := false } (Lemmas.EmuRefine.newState 1 1) 1 = some "cursor visibility" := by
+  decide
+
 /-- Non-vacuity of `DecOk` together with the other decoder hypotheses: the table decoder of the examples. -/
 example : DecOk C06Bridge.dec0 ∧ C06Bridge.dec0 "20" = [32] ∧ C06Bridge.dec0 "" = [] := ⟨C06Bridge.decOk0, by decide, by decide⟩
 
